@@ -81,6 +81,7 @@ class Shim:
         self.n, self.nb = int(n), int(nb)
         self._map_in = {}
         self._napply = 0
+        self._refresh = 0
 
     def resize_only(self, n, nb):
         self.lib.iv_resize_only(int(n), int(nb))
